@@ -1,13 +1,17 @@
 (* C15 -- Streams deliver everything in order and end cleanly whoever leaves first.
    Statements only; proofs are in Api/StreamProofs.v. [run fx (init m0 n) acts]
    ranges over every interleaving of the client (further valid or undecodable
-   messages, leaving), the service (emitting on / closing its channels), the
+   messages, leaving), the service (emitting on / closing its n channels), the
    reader goroutine, the write loop, the adapter, the stoppers and the forwarders
-   of one streaming session whose first message is m0; [fixed] is the code with
-   proposed_fixes/C15-F18.diff and C15-F19.diff, [pinned] the code as it is. *)
+   of one streaming session whose first message is m0; [srun] over several
+   sessions on one server. [fixed] is the code with proposed_fixes/C15-F18.diff and
+   C15-F19.diff, [pinned] the code as it is. [quiescent fx s]: no goroutine of the
+   session can move (it waits for the client or the service). *)
 From Coq Require Import List Arith.
 Import ListNotations.
 From Onet Require Import Api.Stream Api.StreamProofs.
+
+(* ---- the server does not crash -------------------------------------------- *)
 
 (* no send on a closed channel, no second close, in any interleaving *)
 Theorem c15_no_crash : forall m0 n acts s,
@@ -21,8 +25,132 @@ Theorem c15_send_on_closed_refuted :
 Proof. exact send_on_closed_refuted. Qed.
 Print Assumptions c15_send_on_closed_refuted.
 
-(* F18: pinned code, one undecodable follow-up message *)
+(* F18: pinned code, one undecodable follow-up message, then the service ends ... *)
 Theorem c15_double_close_refuted :
   exists acts s, run pinned (init (MReq 0) 1) acts = Some s /\ crashed s = true.
 Proof. exact double_close_refuted. Qed.
 Print Assumptions c15_double_close_refuted.
+
+(* ... or emits one more value *)
+Theorem c15_send_on_closed_out_refuted :
+  exists acts s, run pinned (init (MReq 0) 1) acts = Some s /\ crashed s = true.
+Proof. exact send_on_closed_out_refuted. Qed.
+Print Assumptions c15_send_on_closed_out_refuted.
+
+(* C15-N1: pinned code, two requests on two service channels, the first one ends *)
+Theorem c15_first_end_refuted :
+  exists acts s, run pinned (init (MReq 0) 2) acts = Some s /\ crashed s = true.
+Proof. exact first_end_refuted. Qed.
+Print Assumptions c15_first_end_refuted.
+
+(* ---- every message, in order, then the normal close ------------------------ *)
+
+(* both variants, every reachable state: on a service channel that one request
+   answers on, written ++ dropped ++ in outChan ++ in the forwarder's hand ++ in
+   the service channel = emitted (so: order, no duplicate, nothing invented) *)
+Theorem c15_order_pipeline : forall fx m0 n acts s c ch,
+  run fx (init m0 n) acts = Some s ->
+  nth_error (svc s) c = Some ch -> count_rc c (reqs (pc s)) <= 1 ->
+  on_chan c (wmsgs (wsout (nt s)) ++ dropped (nt s) ++ out (pc s)) ++
+  held c (reqs (pc s)) ++ buf ch = emitted ch.
+Proof. exact order_pipeline. Qed.
+Print Assumptions c15_order_pipeline.
+
+Theorem c15_order_prefix : forall fx m0 n acts s c ch,
+  run fx (init m0 n) acts = Some s ->
+  nth_error (svc s) c = Some ch -> count_rc c (reqs (pc s)) <= 1 ->
+  prefix_of (on_chan c (wmsgs (wsout (nt s)))) (emitted ch).
+Proof. exact order_prefix. Qed.
+Print Assumptions c15_order_prefix.
+
+(* the service ends first, the client stays: everything emitted, then CloseNormal *)
+Theorem c15_order_complete : forall m0 n acts s,
+  run fixed (init m0 n) acts = Some s -> quiescent fixed s ->
+  cleft (nt s) = false ->
+  (forall c ch, nth_error (svc s) c = Some ch -> sclosed ch = true) ->
+  exists msgs,
+    wsout (nt s) = map SMsg msgs ++ [SClose CNormal] /\
+    forall c ch, nth_error (svc s) c = Some ch -> count_rc c (reqs (pc s)) = 1 ->
+                 on_chan c msgs = emitted ch.
+Proof. exact order_complete. Qed.
+Print Assumptions c15_order_complete.
+
+Example c15_order_complete_example :
+  exists acts s, run fixed (init (MReq 0) 1) acts = Some s /\ quiescentb fixed s = true /\
+    cleft (nt s) = false /\ forallb sclosed (svc s) = true /\
+    wsout (nt s) = [SMsg (0, 1); SMsg (0, 2); SMsg (0, 3); SClose CNormal] /\ census s = 0.
+Proof. exact order_complete_example. Qed.
+Print Assumptions c15_order_complete_example.
+
+(* C15-N2: several requests answered on one service channel: order is lost *)
+Theorem c15_order_shared_refuted :
+  exists acts s ch, run fixed (init (MReq 0) 1) acts = Some s /\
+    nth_error (svc s) 0 = Some ch /\ emitted ch = [1; 2] /\
+    on_chan 0 (wmsgs (wsout (nt s))) = [2; 1].
+Proof. exact order_shared_refuted. Qed.
+Print Assumptions c15_order_shared_refuted.
+
+(* ---- the client leaves first: the service is told to stop ------------------ *)
+
+Theorem c15_stop_signalled : forall m0 n acts s,
+  run fixed (init m0 n) acts = Some s -> quiescent fixed s -> cleft (nt s) = true ->
+  forall k r, nth_error (reqs (pc s)) k = Some r -> stp r = true.
+Proof. exact stop_signalled. Qed.
+Print Assumptions c15_stop_signalled.
+
+Example c15_stop_signalled_example :
+  exists acts s, run fixed (init (MReq 0) 1) acts = Some s /\ quiescentb fixed s = true /\
+    cleft (nt s) = true /\ map stp (reqs (pc s)) = [true].
+Proof. exact stop_signalled_example. Qed.
+Print Assumptions c15_stop_signalled_example.
+
+(* F18, second face: pinned code never tells the service after an undecodable follow-up *)
+Theorem c15_stop_refuted :
+  exists acts s, run pinned (init (MReq 0) 1) acts = Some s /\ quiescentb pinned s = true /\
+    cleft (nt s) = true /\ crashed s = false /\ map stp (reqs (pc s)) = [false].
+Proof. exact stop_refuted. Qed.
+Print Assumptions c15_stop_refuted.
+
+Theorem c15_quiescentb_sound : forall fx s, quiescentb fx s = true -> quiescent fx s.
+Proof. exact quiescentb_sound. Qed.
+Print Assumptions c15_quiescentb_sound.
+
+(* ---- nothing stays blocked -------------------------------------------------- *)
+
+Theorem c15_no_block : forall m0 n acts s,
+  run fixed (init m0 n) acts = Some s -> quiescent fixed s ->
+  (forall c ch, nth_error (svc s) c = Some ch -> sclosed ch = true) ->
+  length (out (pc s)) < out_cap ->
+  rd (wk s) = RExit /\ wr (wk s) = WExit /\ ad (pc s) = AExit /\
+  (forall k r, nth_error (reqs (pc s)) k = Some r -> fw r = FExit /\ stp r = true) /\
+  census s = 0.
+Proof. exact no_block. Qed.
+Print Assumptions c15_no_block.
+
+(* ---- other clients are unaffected ------------------------------------------- *)
+
+Theorem c15_sys_no_crash : forall l acts s,
+  srun fixed (sinit l) acts = Some s -> sys_crashed s = false.
+Proof. exact sys_no_crash. Qed.
+Print Assumptions c15_sys_no_crash.
+
+Theorem c15_streams_footprint : forall fx s i a s' j,
+  sstep fx s (i, a) = Some s' -> i <> j -> nth_error s' j = nth_error s j.
+Proof. exact sstep_other. Qed.
+Print Assumptions c15_streams_footprint.
+
+Theorem c15_streams_independent : forall l acts s j c racts c',
+  srun fixed (sinit l) acts = Some s -> nth_error s j = Some c ->
+  run fixed c racts = Some c' ->
+  exists s', srun fixed s (map (pair j) racts) = Some s' /\ nth_error s' j = Some c' /\
+             forall i, i <> j -> nth_error s' i = nth_error s i.
+Proof. exact sessions_independent. Qed.
+Print Assumptions c15_streams_independent.
+
+(* pinned code: a bystander's ready message is never delivered *)
+Theorem c15_bystander_refuted :
+  exists acts s c1 c1', srun pinned (sinit [(MReq 0, 1); (MReq 0, 1)]) acts = Some s /\
+    nth_error s 1 = Some c1 /\ step pinned c1 WrFwd = Some c1' /\
+    sstep pinned s (1, WrFwd) = None.
+Proof. exact bystander_refuted. Qed.
+Print Assumptions c15_bystander_refuted.
